@@ -232,39 +232,14 @@ def fieldReader (fuel : Nat) : M (Bytes × Ty) := do
 
 mutual
 theorem rt_deserType : ∀ (t : Ty) (fuel : Nat), BinTy t fuel → RT (deserType fuel) (encTy t) t
-  | _, 0, h => by cases h
+  | t, 0, h => by cases t <;> simp [BinTy] at h
   | .native n, f + 1, _ => by
     unfold deserType encTy
     refine rt_bind0 (rt_noteDepth _) (?_)
     have h1 := rt_tag "type.id" (rt_readShort (nativeId n) (by cases n <;> decide))
-    have := rt_bind (e2 := []) (b := Ty.native n) h1 (f := fun id => match id with
-      | 0x0000 => do
-        let str ← tag "type.customname" readString
-        match customParse str with
-        | .ok t => do noteDepth (129 - f + customDepthBound); pure t
-        | .error e => fail ("type.ct." ++ e)
-      | 0x0020 => do let t ← deserType f; pure (.list false t)
-      | 0x0021 => do let k ← deserType f; let v ← deserType f; pure (.map false k v)
-      | 0x0022 => do let t ← deserType f; pure (.set false t)
-      | 0x0030 => do
-        let ks ← tag "type.udtks" readString
-        let name ← tag "type.udtname" readString
-        let n ← tag "type.udtcount" readShort
-        let fields ← loopN n (do
-          let fname ← tag "type.udtfield" readString
-          let t ← deserType f
-          pure (fname, t))
-        pure (.udt false ks name fields)
-      | 0x0031 => do
-        let n ← tag "type.tuplelen" readShort
-        let ts ← loopN n (deserType f)
-        pure (.tuple ts)
-      | id =>
-        match nativeOfId id with
-        | some n => pure (.native n)
-        | none => fail "type.unknownid") (by
-        cases n <;> exact rt_pure _)
-    simpa using this
+    rw [← List.append_nil (encShort (nativeId n))]
+    refine rt_bind h1 ?_
+    cases n <;> exact rt_pure _
   | .list fr t, f + 1, h => by
     obtain ⟨rfl, ht⟩ := h
     unfold deserType encTy
@@ -293,7 +268,7 @@ theorem rt_deserType : ∀ (t : Ty) (fuel : Nat), BinTy t fuel → RT (deserType
     refine rt_bind (rt_tag _ (rt_readString ks hks)) (rt_bind (rt_tag _ (rt_readString name hname))
       (rt_bind (rt_tag _ (rt_readShort (fieldsLen fs) hl)) ?_))
     exact rt_map (fun fields => Ty.udt false ks name fields) (rt_fields fs f hfs)
-  | .vector _ _, _ + 1, h => by cases h
+  | .vector _ _, _ + 1, h => by simp [BinTy] at h
 theorem rt_types : ∀ (ts : List Ty) (fuel : Nat), BinTys ts fuel →
     RT (loopN (tysLen ts) (deserType fuel)) (encTys ts) ts
   | [], _, _ => by simpa [tysLen, loopN, encTys] using rt_pure ([] : List Ty)
@@ -309,5 +284,632 @@ theorem rt_fields : ∀ (fs : List (Bytes × Ty)) (fuel : Nat), BinFields fs fue
     unfold fieldReader
     exact rt_bind (rt_tag _ (rt_readString n h.1)) (rt_map (fun t => (n, t)) (rt_deserType t f h.2.1))
 end
+
+/-! ### ERROR -/
+
+def Fld.ty : Fld → FldTy
+  | .int _ => .int | .cons _ => .cons | .bool _ => .bool | .byte _ => .byte | .str _ => .str | .strs _ => .strs
+  | .sbytes _ => .sbytes
+
+def encFld : Fld → Bytes
+  | .int v => encInt v
+  | .cons c => encShort c
+  | .bool b => encU8 (if b then 1 else 0)
+  | .byte n => encU8 n
+  | .str s => encString s
+  | .strs l => encStringList l
+  | .sbytes b => encShortBytes b
+
+def WfFld : Fld → Prop
+  | .int v => -2 ^ 31 ≤ v ∧ v < 2 ^ 31
+  | .cons c => c ≤ 10
+  | .bool _ => True
+  | .byte n => n < 256
+  | .str s => WfStr s
+  | .strs l => l.length < 65536 ∧ ∀ s ∈ l, WfStr s
+  | .sbytes b => b.length < 65536
+
+theorem rt_readConsistency (c : Nat) (h : c ≤ 10) : RT readConsistency (encShort c) c := by
+  unfold readConsistency
+  rw [← List.append_nil (encShort c)]
+  refine rt_bind (rt_readShort c (by omega)) ?_
+  have : consistencyOk c = true := by simp [consistencyOk]; omega
+  simp only [this, if_true]; exact rt_pure c
+
+theorem rt_readFld (x : Fld) (h : WfFld x) : RT (readFld x.ty) (encFld x) x := by
+  cases x with
+  | int v => exact rt_map Fld.int (rt_readInt v h)
+  | cons c => exact rt_map Fld.cons (rt_readConsistency c h)
+  | bool b =>
+    have := rt_map (fun n => Fld.bool (n ≠ 0)) (rt_readU8 (if b then 1 else 0) (by split <;> omega))
+    cases b <;> simpa [Fld.ty, readFld, encFld] using this
+  | byte n => exact rt_map Fld.byte (rt_readU8 n h)
+  | str s => exact rt_map Fld.str (rt_readString s h)
+  | strs l => exact rt_map Fld.strs (rt_readStringList l h.1 h.2)
+  | sbytes b => exact rt_map Fld.sbytes (rt_readShortBytes b h)
+
+theorem rt_readFlds : ∀ (xs : List Fld), (∀ x ∈ xs, WfFld x) → RT (readFlds (xs.map Fld.ty)) (xs.flatMap encFld) xs
+  | [], _ => by simpa [readFlds] using rt_pure ([] : List Fld)
+  | x :: xs, h => by
+    simp only [List.map_cons, readFlds, List.flatMap_cons]
+    exact rt_bind (rt_readFld x (h x List.mem_cons_self))
+      (rt_map (fun r => x :: r) (rt_readFlds xs (fun y hy => h y (List.mem_cons_of_mem _ hy))))
+
+def encError (e : ErrorResp) : Bytes := encInt e.code ++ (encString e.reason ++ e.fields.flatMap encFld)
+
+/-- The fields are those the protocol prescribes for the error code (with the negotiated rate-limit code). -/
+def WfError (rl : Option Int) (e : ErrorResp) : Prop :=
+  (-2 ^ 31 ≤ e.code ∧ e.code < 2 ^ 31) ∧ WfStr e.reason ∧ e.fields.map Fld.ty = (errorSpec rl e.code).2 ∧
+    ∀ x ∈ e.fields, WfFld x
+
+theorem rt_deserError (f : Features) (e : ErrorResp) (h : WfError f.rateLimitError e) :
+    RT (deserError f) (encError e) e := by
+  unfold deserError encError
+  refine rt_bind (rt_tag _ (rt_readInt e.code h.1)) (rt_bind (rt_tag _ (rt_readString e.reason h.2.1)) ?_)
+  rw [← h.2.2.1]
+  have := rt_map (fun fields => (⟨e.code, e.reason, fields⟩ : ErrorResp)) (rt_tag "error.field" (rt_readFlds e.fields h.2.2.2))
+  simpa using this
+
+/-! ### SUPPORTED -/
+
+def encMultimap (l : List (Bytes × List Bytes)) : Bytes :=
+  encShort l.length ++ l.flatMap (fun p => encString p.1 ++ encStringList p.2)
+
+def WfMultimap (l : List (Bytes × List Bytes)) : Prop :=
+  l.length < 65536 ∧ ∀ p ∈ l, WfStr p.1 ∧ p.2.length < 65536 ∧ ∀ s ∈ p.2, WfStr s
+
+theorem rt_readStringMultimap (l : List (Bytes × List Bytes)) (h : WfMultimap l) :
+    RT readStringMultimap (encMultimap l) l := by
+  unfold readStringMultimap encMultimap
+  refine rt_bind (rt_readShort l.length h.1) (rt_bind0 (rt_allocReq _) ?_)
+  refine rt_loopN (fun p => encString p.1 ++ encStringList p.2) l (fun p hp => ?_)
+  have hp' := h.2 p hp
+  exact rt_bind (rt_readString p.1 hp'.1) (rt_map (fun v => (p.1, v)) (rt_readStringList p.2 hp'.2.1 hp'.2.2))
+
+/-! ### schema change, EVENT -/
+
+def S (s : String) : Bytes := asciiBytes s
+
+def encSchemaChange (sc : SchemaChange) : Bytes :=
+  encString sc.changeType ++ match sc.target with
+  | .keyspace => encString (S "KEYSPACE") ++ encString sc.ks
+  | .table n => encString (S "TABLE") ++ (encString sc.ks ++ encString n)
+  | .type n => encString (S "TYPE") ++ (encString sc.ks ++ encString n)
+  | .function n args => encString (S "FUNCTION") ++ (encString sc.ks ++ (encString n ++ encStringList args))
+  | .aggregate n args => encString (S "AGGREGATE") ++ (encString sc.ks ++ (encString n ++ encStringList args))
+
+def WfTarget : SchemaTarget → Prop
+  | .keyspace => True
+  | .table n => WfStr n
+  | .type n => WfStr n
+  | .function n args => WfStr n ∧ args.length < 65536 ∧ ∀ s ∈ args, WfStr s
+  | .aggregate n args => WfStr n ∧ args.length < 65536 ∧ ∀ s ∈ args, WfStr s
+
+def WfSchemaChange (sc : SchemaChange) : Prop := WfStr sc.changeType ∧ WfStr sc.ks ∧ WfTarget sc.target
+
+theorem wfS (s : String) (h : (utf8ok (S s) && decide ((S s).length < 65536)) = true) : WfStr (S s) := by
+  simp only [Bool.and_eq_true, decide_eq_true_eq] at h
+  exact ⟨h.2, h.1⟩
+
+/-- The argument list as `deserSchemaChange` reads it. -/
+theorem rt_args (args : List Bytes) (hl : args.length < 65536) (h : ∀ s ∈ args, WfStr s) {β : Type}
+    (g : List Bytes → β) :
+    RT (tag "schema.argcount" readShort >>= fun cnt => allocReq cnt >>= fun _ =>
+        tag "schema.arg" (loopN cnt readString) >>= fun a => (pure (g a) : M β)) (encStringList args) (g args) := by
+  unfold encStringList
+  exact rt_bind (rt_tag _ (rt_readShort args.length hl)) (rt_bind0 (rt_allocReq _)
+    (rt_map g (rt_tag _ (rt_loopN encString args (fun s hs => rt_readString s (h s hs))))))
+
+theorem rt_deserSchemaChange (sc : SchemaChange) (h : WfSchemaChange sc) :
+    RT deserSchemaChange (encSchemaChange sc) sc := by
+  obtain ⟨ct, ks, target⟩ := sc
+  obtain ⟨hct, hks, ht⟩ := h
+  simp only at hct hks ht
+  unfold deserSchemaChange encSchemaChange
+  refine rt_bind (rt_tag _ (rt_readString ct hct)) ?_
+  cases target with
+  | keyspace =>
+    refine rt_bind (rt_tag _ (rt_readString (S "KEYSPACE") (wfS _ (by decide +kernel)))) ?_
+    rw [← List.append_nil (encString ks)]
+    refine rt_bind (rt_tag _ (rt_readString ks hks)) ?_
+    simp only [S, if_true, beq_self_eq_true]
+    exact rt_pure _
+  | table n =>
+    refine rt_bind (rt_tag _ (rt_readString (S "TABLE") (wfS _ (by decide +kernel)))) ?_
+    refine rt_bind (rt_tag _ (rt_readString ks hks)) ?_
+    have e1 : (S "TABLE" == asciiBytes "KEYSPACE") = false := by decide +kernel
+    simp only [S] at e1 ⊢
+    simp only [e1, beq_self_eq_true, if_true, Bool.false_eq_true, if_false]
+    exact rt_map (fun n => (⟨ct, ks, .table n⟩ : SchemaChange)) (rt_tag _ (rt_readString n ht))
+  | type n =>
+    refine rt_bind (rt_tag _ (rt_readString (S "TYPE") (wfS _ (by decide +kernel)))) ?_
+    refine rt_bind (rt_tag _ (rt_readString ks hks)) ?_
+    have e1 : (S "TYPE" == asciiBytes "KEYSPACE") = false := by decide +kernel
+    have e2 : (S "TYPE" == asciiBytes "TABLE") = false := by decide +kernel
+    simp only [S] at e1 e2 ⊢
+    simp only [e1, e2, beq_self_eq_true, if_true, Bool.false_eq_true, if_false]
+    exact rt_map (fun n => (⟨ct, ks, .type n⟩ : SchemaChange)) (rt_tag _ (rt_readString n ht))
+  | function n args =>
+    refine rt_bind (rt_tag _ (rt_readString (S "FUNCTION") (wfS _ (by decide +kernel)))) ?_
+    refine rt_bind (rt_tag _ (rt_readString ks hks)) ?_
+    have e1 : (S "FUNCTION" == asciiBytes "KEYSPACE") = false := by decide +kernel
+    have e2 : (S "FUNCTION" == asciiBytes "TABLE") = false := by decide +kernel
+    have e3 : (S "FUNCTION" == asciiBytes "TYPE") = false := by decide +kernel
+    simp only [S] at e1 e2 e3 ⊢
+    simp only [e1, e2, e3, beq_self_eq_true, if_true, Bool.false_eq_true, if_false]
+    exact rt_bind (rt_tag _ (rt_readString n ht.1))
+      (rt_args args ht.2.1 ht.2.2 (fun a => (⟨ct, ks, .function n a⟩ : SchemaChange)))
+  | aggregate n args =>
+    refine rt_bind (rt_tag _ (rt_readString (S "AGGREGATE") (wfS _ (by decide +kernel)))) ?_
+    refine rt_bind (rt_tag _ (rt_readString ks hks)) ?_
+    have e1 : (S "AGGREGATE" == asciiBytes "KEYSPACE") = false := by decide +kernel
+    have e2 : (S "AGGREGATE" == asciiBytes "TABLE") = false := by decide +kernel
+    have e3 : (S "AGGREGATE" == asciiBytes "TYPE") = false := by decide +kernel
+    have e4 : (S "AGGREGATE" == asciiBytes "FUNCTION") = false := by decide +kernel
+    simp only [S] at e1 e2 e3 e4 ⊢
+    simp only [e1, e2, e3, e4, beq_self_eq_true, if_true, Bool.false_eq_true, if_false]
+    exact rt_bind (rt_tag _ (rt_readString n ht.1))
+      (rt_args args ht.2.1 ht.2.2 (fun a => (⟨ct, ks, .aggregate n a⟩ : SchemaChange)))
+
+/-- EVENT kinds covered by the round trip (client-routes events carry host ids as UUID strings: not covered). -/
+def encEvent : Event → Bytes
+  | .topology c a => encString (S "TOPOLOGY_CHANGE") ++ (encString c ++ encInet a)
+  | .status c a => encString (S "STATUS_CHANGE") ++ (encString c ++ encInet a)
+  | .schema sc => encString (S "SCHEMA_CHANGE") ++ encSchemaChange sc
+  | .routes _ _ => []
+
+def WfAddr (a : Addr) : Prop := (a.ip.length = 4 ∨ a.ip.length = 16) ∧ a.port < 65536
+
+def WfEvent : Event → Prop
+  | .topology c a => (c = S "NEW_NODE" ∨ c = S "REMOVED_NODE") ∧ WfAddr a
+  | .status c a => (c = S "UP" ∨ c = S "DOWN") ∧ WfAddr a
+  | .schema sc => WfSchemaChange sc
+  | .routes _ _ => False
+
+theorem rt_deserEvent (e : Event) (h : WfEvent e) : RT deserEvent (encEvent e) e := by
+  unfold deserEvent
+  cases e with
+  | topology c a =>
+    unfold encEvent
+    refine rt_bind (rt_tag _ (rt_readString (S "TOPOLOGY_CHANGE") (wfS _ (by decide +kernel)))) ?_
+    simp only [S, beq_self_eq_true, if_true]
+    have hc : WfStr c := by rcases h.1 with rfl | rfl <;> exact wfS _ (by decide +kernel)
+    refine rt_bind (rt_tag _ (rt_readString c hc)) ?_
+    rw [← List.append_nil (encInet a)]
+    refine rt_bind (rt_tag _ (rt_readInet a h.2.1 h.2.2)) ?_
+    have : (c == asciiBytes "NEW_NODE" ∨ c == asciiBytes "REMOVED_NODE") := by
+      rcases h.1 with rfl | rfl <;> simp [S]
+    simp only [this, if_true]; exact rt_pure _
+  | status c a =>
+    unfold encEvent
+    refine rt_bind (rt_tag _ (rt_readString (S "STATUS_CHANGE") (wfS _ (by decide +kernel)))) ?_
+    have e1 : (S "STATUS_CHANGE" == asciiBytes "TOPOLOGY_CHANGE") = false := by decide +kernel
+    simp only [S] at e1 ⊢
+    simp only [e1, beq_self_eq_true, if_true, Bool.false_eq_true, if_false]
+    have hc : WfStr c := by rcases h.1 with rfl | rfl <;> exact wfS _ (by decide +kernel)
+    refine rt_bind (rt_tag _ (rt_readString c hc)) ?_
+    rw [← List.append_nil (encInet a)]
+    refine rt_bind (rt_tag _ (rt_readInet a h.2.1 h.2.2)) ?_
+    have : (c == asciiBytes "UP" ∨ c == asciiBytes "DOWN") := by
+      rcases h.1 with rfl | rfl <;> simp [S]
+    simp only [this, if_true]; exact rt_pure _
+  | schema sc =>
+    unfold encEvent
+    refine rt_bind (rt_tag _ (rt_readString (S "SCHEMA_CHANGE") (wfS _ (by decide +kernel)))) ?_
+    have e1 : (S "SCHEMA_CHANGE" == asciiBytes "TOPOLOGY_CHANGE") = false := by decide +kernel
+    have e2 : (S "SCHEMA_CHANGE" == asciiBytes "STATUS_CHANGE") = false := by decide +kernel
+    simp only [S] at e1 e2 ⊢
+    simp only [e1, e2, beq_self_eq_true, if_true, Bool.false_eq_true, if_false]
+    exact rt_map Event.schema (rt_deserSchemaChange sc h)
+  | routes _ _ => exact absurd h (by simp [WfEvent])
+
+/-! ### column specifications, result metadata, Rows -/
+
+def encTableSpec (g : Bytes × Bytes) : Bytes := encString g.1 ++ encString g.2
+
+def encColSpec (gts : Option (Bytes × Bytes)) (c : ColSpec) : Bytes :=
+  (match gts with
+   | some _ => []
+   | none => encTableSpec (c.ks, c.table)) ++ (encString c.name ++ encTy c.ty)
+
+def WfCol (gts : Option (Bytes × Bytes)) (c : ColSpec) : Prop :=
+  WfStr c.name ∧ BinTy c.ty 129 ∧
+    match gts with
+    | some g => c.ks = g.1 ∧ c.table = g.2
+    | none => WfStr c.ks ∧ WfStr c.table
+
+theorem rt_deserTableSpec (g : Bytes × Bytes) (h : WfStr g.1 ∧ WfStr g.2) : RT deserTableSpec (encTableSpec g) g := by
+  unfold deserTableSpec encTableSpec
+  exact rt_bind (rt_tag _ (rt_readString g.1 h.1)) (rt_map (fun t => (g.1, t)) (rt_tag _ (rt_readString g.2 h.2)))
+
+theorem rt_deserColSpec (gts : Option (Bytes × Bytes)) (c : ColSpec) (h : WfCol gts c) :
+    RT (deserColSpec gts) (encColSpec gts c) c := by
+  obtain ⟨ks, table, name, ty⟩ := c
+  obtain ⟨hn, hty, hg⟩ := h
+  have tail : RT (tag "name" readString >>= fun name => deserTypeTop >>= fun t =>
+      (pure (⟨ks, table, name, t⟩ : ColSpec) : M ColSpec)) (encString name ++ encTy ty) ⟨ks, table, name, ty⟩ :=
+    rt_bind (rt_tag _ (rt_readString name hn))
+      (rt_map (fun t => (⟨ks, table, name, t⟩ : ColSpec)) (rt_deserType ty 129 hty))
+  unfold deserColSpec encColSpec
+  cases gts with
+  | some g =>
+    simp only at hg ⊢
+    obtain ⟨rfl, rfl⟩ := hg
+    exact rt_bind0 (by unfold tableSpecFor; exact rt_pure g) tail
+  | none =>
+    simp only at hg ⊢
+    exact rt_bind (by unfold tableSpecFor; exact rt_deserTableSpec (ks, table) hg) tail
+
+theorem rt_deserColSpecs (gts : Option (Bytes × Bytes)) (cols : List ColSpec) (h : ∀ c ∈ cols, WfCol gts c) :
+    RT (deserColSpecs gts cols.length) (cols.flatMap (encColSpec gts)) cols := by
+  unfold deserColSpecs
+  exact rt_remaining_bind (fun rem => rt_bind0 (rt_allocReq _)
+    (rt_loopN (encColSpec gts) cols (fun c hc => rt_tag _ (rt_deserColSpec gts c (h c hc)))))
+
+/-- The `i32` flags word of result metadata: global table spec, has-more-pages, no-metadata, metadata-changed. -/
+def flagBits (g p n c : Bool) : Int :=
+  (if g then 1 else 0) + (if p then 2 else 0) + (if n then 4 else 0) + (if c then 8 else 0)
+
+theorem flagSet_bits (g p n c : Bool) :
+    flagSet (flagBits g p n c) 1 = g ∧ flagSet (flagBits g p n c) 2 = p ∧ flagSet (flagBits g p n c) 4 = n ∧
+    flagSet (flagBits g p n c) 8 = c := by
+  cases g <;> cases p <;> cases n <;> cases c <;> decide
+
+theorem rt_optRead {m : M α} {e : Bytes} {a : α} (h : RT m e a) : RT (optRead true m) e (some a) := by
+  unfold optRead; simp only [if_true]; exact rt_map some h
+
+theorem rt_optRead_false (m : M α) : RT (optRead false m) [] (none : Option α) := by
+  unfold optRead; simp only [Bool.false_eq_true, if_false]; exact rt_pure _
+
+theorem flagBits_range (g p n c : Bool) : -2 ^ 31 ≤ flagBits g p n c ∧ flagBits g p n c < 2 ^ 31 := by
+  cases g <;> cases p <;> cases n <;> cases c <;> decide
+
+/-- Header of a Rows result: flags, column count, optional paging state. -/
+def encRawRows (r : RawRows) : Bytes :=
+  encInt (flagBits r.globalSpec r.paging.isSome (r.presence == .noMetadata) (r.presence == .withNewId)) ++
+    (encInt r.colCount ++ match r.paging with
+      | some p => encBytes p
+      | none => [])
+
+def WfRawRows (f : Features) (r : RawRows) : Prop :=
+  (r.presence = .withNewId → f.metadataId = true) ∧ r.colCount < 2 ^ 31 ∧ ∀ p, r.paging = some p → p.length < 2 ^ 31
+
+theorem rt_deserRawRows (f : Features) (r : RawRows) (h : WfRawRows f r) :
+    RT (deserRawRows f) (encRawRows r) r := by
+  obtain ⟨cc, g, pres, paging⟩ := r
+  obtain ⟨hm, hcc, hp⟩ := h
+  simp only at hm hcc hp
+  unfold deserRawRows encRawRows
+  refine rt_bind (rt_tag _ (rt_readInt _ (flagBits_range _ _ _ _))) ?_
+  obtain ⟨b1, b2, b3, b4⟩ := flagSet_bits g paging.isSome (pres == .noMetadata) (pres == .withNewId)
+  simp only [b1, b2, b3, b4]
+  have hpres : (if (pres == MetaPresence.noMetadata) = true then MetaPresence.noMetadata
+      else if (f.metadataId && pres == MetaPresence.withNewId) = true then MetaPresence.withNewId
+      else MetaPresence.justMetadata) = pres := by
+    cases pres <;> simp_all
+  have hnot : ((pres == MetaPresence.noMetadata) && (f.metadataId && pres == MetaPresence.withNewId)) = false := by
+    cases pres <;> simp
+  simp only [hnot, Bool.false_eq_true, if_false, hpres]
+  refine rt_bind (rt_tag _ (rt_readIntLength cc hcc)) ?_
+  cases paging with
+  | none => exact rt_map (fun pg => (⟨cc, g, pres, pg⟩ : RawRows)) (rt_optRead_false _)
+  | some p =>
+    exact rt_map (fun pg => (⟨cc, g, pres, pg⟩ : RawRows)) (rt_optRead (rt_tag "rows.paging" (rt_readBytes p (hp p rfl))))
+
+/-- The table spec written as the global one: that of the first column (any, if there is no column). -/
+def firstTable : List ColSpec → Bytes × Bytes
+  | c :: _ => (c.ks, c.table)
+  | [] => ([], [])
+
+/-- Metadata of a Rows result as sent by the server (after the header): [new id] [global table spec] col specs. -/
+def encRowsMeta (r : RawRows) (m : ResultMeta) : Bytes :=
+  (match m.id with
+   | some i => encShortBytes i
+   | none => []) ++
+  ((if r.globalSpec then encTableSpec (firstTable m.cols) else []) ++
+   m.cols.flatMap (encColSpec (if r.globalSpec then some (firstTable m.cols) else none)))
+
+def gtsOf (global : Bool) (cols : List ColSpec) : Option (Bytes × Bytes) :=
+  if global then some (firstTable cols) else none
+
+def WfRowsMeta (r : RawRows) (m : ResultMeta) : Prop :=
+  r.presence ≠ .noMetadata ∧ (m.id.isSome ↔ r.presence = .withNewId) ∧ (∀ i, m.id = some i → i.length < 65536) ∧
+  m.colCount = r.colCount ∧ m.cols.length = r.colCount ∧ (∀ c ∈ m.cols, WfCol (gtsOf r.globalSpec m.cols) c) ∧
+  (r.globalSpec = true → ∀ g, gtsOf true m.cols = some g → WfStr g.1 ∧ WfStr g.2)
+
+theorem rt_metaBody (global : Bool) (cols : List ColSpec) (newId : Option Bytes) (cc : Nat) (hcc : cols.length = cc)
+    (hc : ∀ c ∈ cols, WfCol (gtsOf global cols) c)
+    (hg : global = true → ∀ g, gtsOf true cols = some g → WfStr g.1 ∧ WfStr g.2) :
+    RT (optRead global (tag "gts" deserTableSpec) >>= fun gts => deserColSpecs gts cc >>= fun cols =>
+        (pure (MetaSource.parsed, (⟨newId, cc, cols⟩ : ResultMeta)) : M (MetaSource × ResultMeta)))
+      ((if global then encTableSpec (firstTable cols) else []) ++ cols.flatMap (encColSpec (gtsOf global cols)))
+      (MetaSource.parsed, ⟨newId, cc, cols⟩) := by
+  subst hcc
+  cases global with
+  | false =>
+    simp only [Bool.false_eq_true, if_false, List.nil_append]
+    refine rt_bind0 (rt_optRead_false _) ?_
+    exact rt_map (fun cs => (MetaSource.parsed, (⟨newId, cols.length, cs⟩ : ResultMeta)))
+      (rt_deserColSpecs none cols (by simpa [gtsOf] using hc))
+  | true =>
+    simp only [if_true]
+    have hw := hg rfl _ rfl
+    refine rt_bind (rt_optRead (rt_tag "gts" (rt_deserTableSpec _ hw))) ?_
+    exact rt_map (fun cs => (MetaSource.parsed, (⟨newId, cols.length, cs⟩ : ResultMeta)))
+      (rt_deserColSpecs _ cols (by simpa [gtsOf] using hc))
+
+theorem rt_metaFor (r : RawRows) (cached : Option ResultMeta) (m : ResultMeta) (h : WfRowsMeta r m) :
+    RT (metaFor r cached) (encRowsMeta r m) (MetaSource.parsed, m) := by
+  obtain ⟨cc, g, pres, paging⟩ := r
+  obtain ⟨mid, mcc, cols⟩ := m
+  obtain ⟨hp, hid, hil, hcc, hlen, hcols, hg⟩ := h
+  simp only at hp hid hil hcc hlen hcols hg
+  subst hcc
+  unfold metaFor encRowsMeta
+  cases pres with
+  | noMetadata => exact absurd rfl hp
+  | justMetadata =>
+    have : mid = none := by
+      cases mid with
+      | none => rfl
+      | some i => simp at hid
+    subst this
+    simp only [List.nil_append]
+    refine rt_tag _ (rt_bind0 (by simpa using rt_optRead_false (tag "newid" readShortBytes)) ?_)
+    exact rt_metaBody g cols none mcc hlen hcols hg
+  | withNewId =>
+    cases mid with
+    | none => simp at hid
+    | some i =>
+      simp only
+      refine rt_tag _ (rt_bind (by simpa using rt_optRead (rt_tag "newid" (rt_readShortBytes i (hil i rfl)))) ?_)
+      exact rt_metaBody g cols (some i) mcc hlen hcols hg
+
+/-! ### raw rows -/
+
+def encRow (cells : List (Option Bytes)) : Bytes := cells.flatMap encBytesOpt
+
+def WfCell (c : Option Bytes) : Prop := ∀ b, c = some b → b.length < 2 ^ 31
+
+theorem readCells_roundtrip : ∀ (cells : List (Option Bytes)) (idx : Nat) (rest : Bytes), (∀ c ∈ cells, WfCell c) →
+    readCells cells.length idx (encRow cells ++ rest) = .ok (cells, rest)
+  | [], _, _, _ => by simp [readCells, encRow]
+  | c :: cs, idx, rest, h => by
+    simp only [List.length_cons, readCells, encRow, List.flatMap_cons, List.append_assoc]
+    obtain ⟨s1, h1, hb⟩ := rt_readBytesOpt c (h c List.mem_cons_self) (cs.flatMap encBytesOpt ++ rest)
+      { buf := encBytesOpt c ++ (cs.flatMap encBytesOpt ++ rest) } rfl
+    rw [h1]
+    simp only [hb]
+    have ih := readCells_roundtrip cs (idx + 1) rest (fun x hx => h x (List.mem_cons_of_mem _ hx))
+    simp only [encRow] at ih
+    rw [ih]
+
+theorem readRows_roundtrip (ncols : Nat) : ∀ (rows : List (List (Option Bytes))) (ridx : Nat),
+    (∀ r ∈ rows, r.length = ncols ∧ ∀ c ∈ r, WfCell c) →
+    readRows ncols rows.length ridx (rows.flatMap encRow) = (rows, none)
+  | [], _, _ => by simp [readRows]
+  | r :: rs, ridx, h => by
+    simp only [List.length_cons, readRows, List.flatMap_cons]
+    have hr := h r List.mem_cons_self
+    have := readCells_roundtrip r 0 (rs.flatMap encRow) hr.2
+    rw [hr.1] at this
+    rw [this]
+    simp only
+    rw [readRows_roundtrip ncols rs (ridx + 1) (fun x hx => h x (List.mem_cons_of_mem _ hx))]
+
+/-! ### PREPARED -/
+
+def encGtsCols (global : Bool) (cols : List ColSpec) : Bytes :=
+  (if global then encTableSpec (firstTable cols) else []) ++ cols.flatMap (encColSpec (gtsOf global cols))
+
+def WfGtsCols (global : Bool) (cols : List ColSpec) : Prop :=
+  (∀ c ∈ cols, WfCol (gtsOf global cols) c) ∧ (global = true → WfStr (firstTable cols).1 ∧ WfStr (firstTable cols).2)
+
+theorem rt_gtsCols (global : Bool) (cols : List ColSpec) (h : WfGtsCols global cols) {β : Type} (g : List ColSpec → β) :
+    RT (optRead global (tag "gts" deserTableSpec) >>= fun gts => deserColSpecs gts cols.length >>= fun cs =>
+        (pure (g cs) : M β)) (encGtsCols global cols) (g cols) := by
+  unfold encGtsCols
+  cases global with
+  | false =>
+    simp only [Bool.false_eq_true, if_false, List.nil_append]
+    exact rt_bind0 (rt_optRead_false _) (rt_map g (rt_deserColSpecs none cols (by simpa [gtsOf] using h.1)))
+  | true =>
+    simp only [if_true]
+    exact rt_bind (rt_optRead (rt_tag "gts" (rt_deserTableSpec _ (h.2 rfl))))
+      (rt_map g (rt_deserColSpecs _ cols (by simpa [gtsOf] using h.1)))
+
+def encPreparedMeta (pm : PreparedMeta) : Bytes :=
+  encInt pm.flags ++ (encInt pm.colCount ++ (encInt pm.pkIndexes.length ++
+    ((pm.pkIndexes.map (·.1)).flatMap encShort ++ encGtsCols (flagSet pm.flags 1) pm.cols)))
+
+def WfPreparedMeta (pm : PreparedMeta) : Prop :=
+  (-2 ^ 31 ≤ pm.flags ∧ pm.flags < 2 ^ 31) ∧ pm.colCount = pm.cols.length ∧ pm.cols.length < 2 ^ 31 ∧
+  pm.pkIndexes.length < 2 ^ 31 ∧ (∀ p ∈ pm.pkIndexes, p.1 < 65536) ∧
+  pm.pkIndexes = (pm.pkIndexes.map (·.1)).zipIdx.map (fun p => (p.1, p.2 % 65536)) ∧
+  WfGtsCols (flagSet pm.flags 1) pm.cols
+
+theorem rt_deserPreparedMetadata (pm : PreparedMeta) (h : WfPreparedMeta pm) :
+    RT deserPreparedMetadata (encPreparedMeta pm) pm := by
+  obtain ⟨flags, cc, pk, cols⟩ := pm
+  obtain ⟨hf, hcc, hcl, hpl, hpi, hpk, hg⟩ := h
+  simp only at hf hcc hcl hpl hpi hpk hg
+  subst hcc
+  unfold deserPreparedMetadata encPreparedMeta
+  refine rt_bind (rt_tag _ (rt_readInt flags hf)) (rt_bind (rt_tag _ (rt_readIntLength cols.length hcl))
+    (rt_bind (rt_tag _ (rt_readIntLength pk.length hpl)) (rt_remaining_bind (fun rem => rt_bind0 (rt_allocReq _) ?_))))
+  have hl := rt_loopN encShort (pk.map (·.1)) (body := tag "pkindex" readShort) (fun x hx => by
+    obtain ⟨p, hp, rfl⟩ := List.mem_map.mp hx
+    exact rt_tag _ (rt_readShort p.1 (hpi p hp)))
+  rw [List.length_map] at hl
+  refine rt_bind hl ?_
+  have := rt_gtsCols (flagSet flags 1) cols hg
+    (fun cs => (⟨flags, cols.length, (pk.map (·.1)).zipIdx.map (fun p => (p.1, p.2 % 65536)), cs⟩ : PreparedMeta))
+  simp only []
+  rw [← hpk]
+  rw [← hpk] at this
+  exact this
+
+/-- Result metadata inside PREPARED; `global` / `noMeta` are presentation choices of the server. -/
+def encResultMetaP (global noMeta : Bool) (m : ResultMeta) : Bytes :=
+  encInt (flagBits global false noMeta false) ++ (encInt m.colCount ++ (if noMeta then [] else encGtsCols global m.cols))
+
+def WfResultMetaP (global noMeta : Bool) (m : ResultMeta) : Prop :=
+  m.colCount < 2 ^ 31 ∧ (if noMeta then m.cols = [] else m.cols.length = m.colCount ∧ WfGtsCols global m.cols)
+
+theorem rt_deserResultMetadataP (f : Features) (global noMeta : Bool) (m : ResultMeta)
+    (h : WfResultMetaP global noMeta m) :
+    RT (deserResultMetadata f) (encResultMetaP global noMeta m) (⟨none, m.colCount, m.cols⟩, none) := by
+  obtain ⟨mid, cc, cols⟩ := m
+  obtain ⟨hcc, hc⟩ := h
+  simp only at hcc hc ⊢
+  unfold deserResultMetadata encResultMetaP
+  refine rt_bind (rt_tag _ (rt_readInt _ (flagBits_range _ _ _ _))) ?_
+  obtain ⟨b1, b2, b3, b4⟩ := flagSet_bits global false noMeta false
+  simp only [b1, b2, b3, b4, Bool.and_false, Bool.false_and, Bool.false_eq_true, if_false]
+  refine rt_bind (rt_tag _ (rt_readIntLength cc hcc)) ?_
+  refine rt_bind0 (rt_optRead_false _) (rt_bind0 (rt_optRead_false _) ?_)
+  cases noMeta with
+  | true =>
+    simp only [if_true] at hc ⊢
+    subst hc
+    simp only [condRead, Bool.not_true, Bool.false_eq_true, if_false]
+    exact rt_map (fun cs => ((⟨none, cc, cs⟩ : ResultMeta), (none : Option Bytes))) (rt_pure [])
+  | false =>
+    simp only [Bool.false_eq_true, if_false] at hc ⊢
+    obtain ⟨hl, hg⟩ := hc
+    subst hl
+    simp only [condRead, Bool.not_false, if_true]
+    have := rt_gtsCols global cols hg (fun cs => cs)
+    simp only [bind_pure_M] at this
+    exact rt_map (fun cs => ((⟨none, cols.length, cs⟩ : ResultMeta), (none : Option Bytes))) (by
+      simpa [bind_pure_M] using this)
+
+def encPrepared (f : Features) (global noMeta : Bool) (p : Prepared) : Bytes :=
+  encShortBytes p.id ++ ((match p.resultMeta.id with
+    | some i => encShortBytes i
+    | none => []) ++ (encPreparedMeta p.prepMeta ++ encResultMetaP global noMeta p.resultMeta))
+
+def WfPrepared (f : Features) (global noMeta : Bool) (p : Prepared) : Prop :=
+  p.id.length < 65536 ∧ (p.resultMeta.id.isSome = f.metadataId) ∧ (∀ i, p.resultMeta.id = some i → i.length < 65536) ∧
+  WfPreparedMeta p.prepMeta ∧ WfResultMetaP global noMeta p.resultMeta
+
+theorem rt_deserPrepared (f : Features) (global noMeta : Bool) (p : Prepared) (h : WfPrepared f global noMeta p) :
+    RT (deserPrepared f) (encPrepared f global noMeta p) p := by
+  obtain ⟨id, pm, ⟨rid, rcc, rcols⟩⟩ := p
+  obtain ⟨hid, hrm, hril, hpm, hrmw⟩ := h
+  simp only at hid hrm hril hpm hrmw
+  unfold deserPrepared encPrepared
+  refine rt_bind (rt_tag _ (rt_readShortBytes id hid)) ?_
+  have tail : ∀ rmid : Option Bytes, RT (tag "prep.pm" deserPreparedMetadata >>= fun pm =>
+      tag "prep.rm" (deserResultMetadata f) >>= fun rp =>
+        match rp.2 with
+        | some _ => fail "prep.nonzeropaging"
+        | none => (pure (⟨id, pm, { rp.1 with id := rmid }⟩ : Prepared) : M Prepared))
+      (encPreparedMeta pm ++ encResultMetaP global noMeta ⟨rid, rcc, rcols⟩) ⟨id, pm, ⟨rmid, rcc, rcols⟩⟩ := by
+    intro rmid
+    refine rt_bind (rt_tag _ (rt_deserPreparedMetadata pm hpm)) ?_
+    rw [← List.append_nil (encResultMetaP global noMeta _)]
+    refine rt_bind (rt_tag _ (rt_deserResultMetadataP f global noMeta ⟨rid, rcc, rcols⟩ hrmw)) ?_
+    exact rt_pure _
+  cases rid with
+  | none =>
+    have hm : f.metadataId = false := by simpa using hrm.symm
+    simp only [hm, List.nil_append]
+    exact rt_bind0 (rt_optRead_false _) (tail none)
+  | some i =>
+    have hm : f.metadataId = true := by simpa using hrm.symm
+    simp only [hm]
+    exact rt_bind (rt_optRead (rt_tag "prep.rmid" (rt_readShortBytes i (hril i rfl)))) (tail (some i))
+
+/-! ### truncation: every proper prefix of an encoding is an error -/
+
+/-- Every proper prefix `p` of `enc` makes `m` fail. -/
+def TR (m : M α) (enc : Bytes) : Prop :=
+  ∀ (p t : Bytes), t ≠ [] → p ++ t = enc → ∀ s : St, s.buf = p → ∃ k, (m s).1 = .err k
+
+theorem tr_takeN (xs : Bytes) (k : String) : TR (takeN xs.length k) xs := by
+  intro p t ht hp s hs
+  refine ⟨k, ?_⟩
+  have hl : p.length + t.length = xs.length := by rw [← hp]; simp
+  have : 0 < t.length := List.length_pos_iff.mpr ht
+  unfold takeN
+  have : s.buf.length < xs.length := by rw [hs]; omega
+  simp [this]
+
+theorem tr_bindL {m : M α} {f : α → M β} {e : Bytes} (h : TR m e) : TR (m >>= f) e := by
+  intro p t ht hp s hs
+  obtain ⟨k, hk⟩ := h p t ht hp s hs
+  refine ⟨k, ?_⟩
+  simp only [bind_def]
+  cases hm : m s with
+  | mk o s1 => rw [hm] at hk; simp only at hk; subst hk; rfl
+
+theorem tr_tag {m : M α} {e : Bytes} (t : String) (h : TR m e) : TR (tag t m) e := by
+  intro p t' ht hp s hs
+  obtain ⟨k, hk⟩ := h p t' ht hp s hs
+  refine ⟨t ++ "." ++ k, ?_⟩
+  rw [tag_def]
+  cases hm : m s with
+  | mk o s1 => rw [hm] at hk; simp only at hk; subst hk; rfl
+
+theorem tr_bind {m : M α} {f : α → M β} {e1 e2 : Bytes} {a : α}
+    (h1 : RT m e1 a) (ht1 : TR m e1) (ht2 : TR (f a) e2) : TR (m >>= f) (e1 ++ e2) := by
+  intro p t ht hp s hs
+  by_cases hlen : p.length < e1.length
+  · -- the cut is inside the first part
+    have hp1 : p ++ (e1.drop p.length) = e1 := by
+      have : p = e1.take p.length := by
+        have := congrArg (List.take p.length) hp
+        rw [List.take_append_of_le_length (Nat.le_refl _), List.take_length,
+          List.take_append_of_le_length (by omega)] at this
+        exact this
+      conv => lhs; arg 1; rw [this]
+      exact List.take_append_drop _ _
+    have hne : e1.drop p.length ≠ [] := by
+      intro h
+      have := congrArg List.length h
+      simp at this; omega
+    exact tr_bindL ht1 p _ hne hp1 s hs
+  · -- the first part is intact
+    have hp1 : p = e1 ++ p.drop e1.length := by
+      have : e1 = p.take e1.length := by
+        have := congrArg (List.take e1.length) hp
+        rw [List.take_append_of_le_length (by omega), List.take_append_of_le_length (Nat.le_refl _),
+          List.take_length] at this
+        exact this.symm
+      conv => rhs; arg 1; rw [this]
+      exact (List.take_append_drop _ _).symm
+    have hp2 : p.drop e1.length ++ t = e2 := by
+      rw [hp1, List.append_assoc] at hp
+      exact List.append_cancel_left hp
+    obtain ⟨s1, hm, hb⟩ := h1 (p.drop e1.length) s (by rw [hs]; exact hp1)
+    obtain ⟨k, hk⟩ := ht2 _ t ht hp2 s1 hb
+    refine ⟨k, ?_⟩
+    simp only [bind_def, hm]
+    exact hk
+
+theorem tr_readShort (n : Nat) : TR readShort (encShort n) := by
+  unfold readShort; exact tr_bindL (tr_takeN (encShort n) "eof")
+
+theorem tr_readInt (v : Int) : TR readInt (encInt v) := by
+  unfold readInt; exact tr_bindL (tr_takeN (encInt v) "eof")
+
+theorem tr_readString (s : Bytes) (h : s.length < 65536) : TR readString (encString s) := by
+  unfold readString encString
+  exact tr_bind (rt_readShort s.length h) (tr_readShort _) (tr_bindL (tr_takeN s "few"))
+
+theorem tr_readBytesOpt (o : Option Bytes) (h : ∀ b, o = some b → b.length < 2 ^ 31) :
+    TR readBytesOpt (encBytesOpt o) := by
+  unfold readBytesOpt
+  cases o with
+  | none =>
+    simp only [encBytesOpt]
+    exact tr_bindL (tr_readInt _)
+  | some b =>
+    simp only [encBytesOpt]
+    refine tr_bind (rt_readInt (b.length : Int) (by have := h b rfl; omega)) (tr_readInt _) ?_
+    have hn : ¬ ((b.length : Int) < 0) := by omega
+    simp only [hn, if_false, Int.toNat_natCast]
+    exact tr_bindL (tr_takeN b "few")
 
 end ScyllaVerif.C08
